@@ -103,6 +103,17 @@ func InputAccepted(in string) bool {
 // Languages the harness uses; ISO-639-1 and -3 codes map to the -3 code.
 var langs = map[string]string{"nor": "nor", "no": "nor", "eng": "eng", "en": "eng", "swa": "swa", "sw": "swa", "fra": "fra", "fr": "fra"}
 
+// The ISO 639-2 bibliographic codes that differ from the 639-3 identifier, with their
+// terminologic (= 639-3) and two-letter forms (from the standard's code tables).
+func init() {
+	for _, e := range [][3]string{{"alb", "sqi", "sq"}, {"arm", "hye", "hy"}, {"baq", "eus", "eu"}, {"bur", "mya", "my"}, {"chi", "zho", "zh"},
+		{"cze", "ces", "cs"}, {"dut", "nld", "nl"}, {"fre", "fra", "fr"}, {"geo", "kat", "ka"}, {"ger", "deu", "de"}, {"gre", "ell", "el"},
+		{"ice", "isl", "is"}, {"mac", "mkd", "mk"}, {"mao", "mri", "mi"}, {"may", "msa", "ms"}, {"per", "fas", "fa"}, {"rum", "ron", "ro"},
+		{"slo", "slk", "sk"}, {"tib", "bod", "bo"}, {"wel", "cym", "cy"}} {
+		langs[e[0]], langs[e[1]], langs[e[2]] = e[1], e[1], e[1]
+	}
+}
+
 func NormaliseLang(code string) (string, bool) {
 	c, ok := langs[code]
 	return c, ok
